@@ -26,8 +26,8 @@ import logging
 logging.getLogger("onnx_ir").setLevel(logging.ERROR)
 LEVEL = "exploration"
 TIERS = {
-    "quick": {"wall": 40, "chunk": 40, "shrink_budget": 250, "shrink_wall": 60},
-    "thorough": {"wall": 600, "chunk": 200, "shrink_budget": 600, "shrink_wall": 240},
+    "quick": {"wall": 33, "optimize_wall": 7, "chunk": 40, "shrink_budget": 250, "shrink_wall": 60},
+    "thorough": {"wall": 600, "optimize_wall": 90, "chunk": 200, "shrink_budget": 600, "shrink_wall": 240},
 }
 RULE = (
     "each run = one seeded workload (2-12 initializers of mixed kinds/sizes around the byte budget, worker count, sharding, "
@@ -177,6 +177,7 @@ def gen_case(run_seed: int, tier: str, index: int = 0) -> dict:
         "cfr_cap": st.rng("buggify-cfr").choice([None, None, None, 1, 5, 64, 1000]),
         "chunk": r.choice([None, 16, 64]),
     }
+    tensors.assign_layouts(specs, st.rng("layouts"))
     case = {
         "property": PROPERTY,
         "run_seed": run_seed,
